@@ -70,6 +70,11 @@ type PInput struct {
 	Late    bool    `json:"late"`  // v1: not passed to New, registered later by an "add" action
 	// Thief (C02): a second reader of this input channel - another discipline or a worker
 	// the channel is shared with - takes up to this many items, pausing ThiefDelay ns after each.
+	// Writers (saturate class): instead of a large prefilled buffer the input has a small
+	// capacity and this many producers that are blocked writing to it before the discipline
+	// is created and write Total items between them: the channel stays full.
+	Writers    int   `json:"writers,omitempty"`
+	Total      int   `json:"total,omitempty"`
 	Thief      int   `json:"thief,omitempty"`
 	ThiefDelay int64 `json:"thief_delay,omitempty"`
 }
@@ -110,6 +115,7 @@ const (
 	varDivCalls
 	varRunning      // running Handle calls
 	varOutSeen = 40 // handlers that saw the output closed
+	varWritten = 44 // +input index: items handed to the writers of that input (up to 8 inputs)
 	varSink    = 63
 )
 
@@ -644,9 +650,16 @@ func genPrio(engine, prop string, r *simrt.SplitMix) *PrioSc {
 	case "saturate", "single":
 		rounds := between(r, 2, 6*scale)
 
+		smallCap := sc.Class == "saturate" && prop == "C05" && r.Intn(4) == 0
+
 		for i, p := range prios {
 			n := h * (rounds + 3)
 			in := PInput{Prio: p, Cap: n, Prefill: n}
+
+			if smallCap {
+				c := pick(r, 1, 1, 2, 3)
+				in = PInput{Prio: p, Cap: c, Prefill: c, Writers: h + 2, Total: n}
+			}
 
 			if sc.Class == "single" && i != 0 {
 				in = PInput{Prio: p, Cap: pick(r, 0, 1, 4)}
@@ -1117,6 +1130,17 @@ var bubbleRunner func(f func())
 func buildPrio(sc *PrioSc) (simrt.Config, func()) {
 	cfg := simrt.Config{MaxSteps: 600_000, Horizon: time.Duration(sc.Horizon), LivelockSteps: 30_000}
 
+	for _, in := range sc.Inputs {
+		if in.Writers > 0 {
+			cfg.RecordEmptyPolls = true
+
+			// the discipline's goroutine may be held up for a nanosecond or two now and then
+			// (its 1 ns interrupter then ticks again, as it does all the time on real hardware)
+			cfg.StallDurs = []time.Duration{1, 1, 2}
+			cfg.StallPer1024, cfg.MaxStalls = 16, 8
+		}
+	}
+
 	main := func() {
 		chans := make([]chan int, len(sc.Inputs))
 		prodDone := make([]chan struct{}, len(sc.Inputs))
@@ -1203,6 +1227,38 @@ func buildPrio(sc *PrioSc) (simrt.Config, func()) {
 			if !in.Late {
 				inputs[in.Prio] = chans[i]
 			}
+		}
+
+		// saturation through blocked writers: they must all be blocked before New
+		writers := false
+
+		for i := range sc.Inputs {
+			i := i
+			in := sc.Inputs[i]
+
+			for w := 0; w < in.Writers; w++ {
+				writers = true
+
+				simrt.GoEnv(fmt.Sprintf("writer[%d.%d]", i, w), func() {
+					for {
+						k := int(simrt.AddVar(varWritten+i, 1)) - 1 + in.Prefill
+						if k >= in.Total {
+							return
+						}
+
+						simrt.Note("write-start", int64(itemID(i, k)), 0)
+
+						if !simrt.SendOr("env:producer", chans[i], itemID(i, k), done) {
+							simrt.Note("write-abandoned", int64(itemID(i, k)), 0)
+							return
+						}
+					}
+				})
+			}
+		}
+
+		if writers {
+			simrt.Sleep("env:main", 1) // time passes only once every writer is blocked
 		}
 
 		var h prioHandle
